@@ -122,6 +122,9 @@ impl MT204 {
             }
         }
 
+        // Reject content left after the last field of the message
+        verify_parser_complete(&parser)?;
+
         Ok(MT204 {
             transaction_reference,
             sum_of_amounts,
